@@ -53,7 +53,10 @@ static void run_case(unsigned mask, int probe_key, int newval)
            /* still usable: a lookup of every remaining key */
            for (i = 0; i < in; i++) { spif_obj_t k = E(ikey[i]); r = spif_array_map_get(a, k); NA_CHECK(r && KEYOF(r) == ival[i], "after remove: key %d is no longer found", ikey[i]); } }
 #elif defined(U_SET)
-    { spif_bool_t t = spif_array_set(a, probe, val); long j;
+    { long live0 = na_live; spif_bool_t t = spif_array_set(a, probe, val); long j;
+      /* heap balance of the call: a replacement frees the old value copy and creates one new copy (net 0);
+       * an insertion creates a key copy and a value copy (net +2 element objects) */
+      NA_CHECK(na_live == live0 + (at >= 0 ? 0 : 2), "set: %ld element objects live after the call, expected %ld (a replaced value copy must be released exactly once)", na_live, live0 + (at >= 0 ? 0 : 2));
       NA_CHECK(t == (at >= 0 ? TRUE : FALSE), "set: 'replaced' answer is %d for a key that was %s", (int) t, at >= 0 ? "present" : "absent");
       if (at >= 0) ival[at] = newval;
       else { for (j = in; j > 0 && ikey[j - 1] > probe_key; j--) { ikey[j] = ikey[j - 1]; ival[j] = ival[j - 1]; } ikey[j] = probe_key; ival[j] = newval; in++; }
